@@ -2,9 +2,10 @@
 # runs inside a vp snapshot: build against the /repo snapshot, then every thorough tier
 sed -i "s#\"/repo/#\"$VP_RUN_REPO/#g" harness/Cargo.toml harness/*/Cargo.toml
 grep -c "$VP_RUN_REPO" harness/Cargo.toml
-for p in C08 C04 C03 C05 C06 C01 C02 C07 C19 C18 C09 C10 C11 C12 C13 C14 C15 C16 C17 C20; do
+# THOROUGH_ONLY="C01 C05" restricts the run; THOROUGH_OPTS="--opt wallcap=420" is passed to every check
+for p in ${THOROUGH_ONLY:-C08 C04 C03 C05 C06 C01 C02 C07 C19 C18 C09 C10 C11 C12 C13 C14 C15 C16 C17 C20}; do
   s=$(date +%s)
-  out=$(bin/check $p --tier thorough 2>&1); code=$?
+  out=$(bin/check $p --tier thorough ${THOROUGH_OPTS:-} 2>&1); code=$?
   echo "=== $p exit=$code $(( $(date +%s) - s ))s"
   echo "$out" | grep -E "^(VIOLATION|  cause|OK|FAILED|MACHINERY|KEY-WARNING|KNOWN)" | cut -c1-600 | head -12
   if echo "$out" | grep -q "KEY-WARNING"; then echo "$out" | grep -A6 "KEY-WARNING" | cut -c1-1200 | head -30; fi
